@@ -84,6 +84,14 @@ def main():
   prop, tier, seed, shard, nshards, n_cases, log, skip_through = sys.argv[1:9]
   seed, shard, nshards, n_cases, skip_through = map(int, (seed, shard, nshards, n_cases, skip_through))
   only = int(sys.argv[9]) if len(sys.argv) > 9 else None
+  if os.environ.get('VERIF_COVERAGE'):
+    # reach audit (tools/reach_audit.sh): which library lines do the workloads execute at all?
+    import atexit
+    import coverage
+    cov = coverage.Coverage(data_file=os.environ['VERIF_COVERAGE'], data_suffix=True,
+                            include=['*/ai_edge_quantizer/*'], omit=['*_test.py'])
+    cov.start()
+    atexit.register(lambda: (cov.stop(), cov.save()))
   import absl.logging
   absl.logging.set_verbosity(absl.logging.ERROR)
   import numpy as np
